@@ -11,6 +11,6 @@ CONSTANTS
   PhraseMode = "reg"
   MaxBig = 12
 SPECIFICATION MCSpec
-INVARIANTS SerValid RoundTrip ParCorrect Bounded LFIndexOk LemmaInv SrvDenotes NeverTrunc
+INVARIANTS SerValid RoundTrip ParCorrect Bounded LFIndexOk LemmaInv SrvDenotes NeverErr
 CHECK_DEADLOCK FALSE
 PROPERTY Terminates
